@@ -638,6 +638,59 @@ func c04(x *mon.Ctx) {
 		}
 		x.Require("level-dates", n/7, n*6/7, n)
 	}
+	// ---- a threshold that is not a number in range (a quoted number, as re-serialising caches write them; 256 for a component,
+	//      65536 for the PCE SVN, 2^32): in the FIRST level, marked UpToDate, which the platform does not reach; the level it does
+	//      reach comes second and is OutOfDate. Refusing the document or passing over the level are both fine — reading the
+	//      threshold as zero is not.
+	{
+		n := 0
+		for wi := 0; wi < x.Pick(2, 8); wi++ {
+			r := x.Rand(fmt.Sprint("threshold-spelling", wi))
+			p := world.RandPlatform(r)
+			for i := range p.Comp {
+				p.Comp[i], p.TeeTcb[i] = byte(1+r.Intn(200)), byte(1+r.Intn(200))
+			}
+			p.PceSvn = uint16(1 + r.Intn(60000))
+			p.TeeTcb[1] = byte(wi % 2 * 3)
+			w0 := world.Honest(r, world.HonestOpts{Shape: world.QuoteShape{AuthLen: 32}, Platform: p})
+			match := world.Level{Sgx: w0.P.Comp, Pce: w0.P.PceSvn, Tdx: w0.P.TeeTcb, Status: "OutOfDate"}
+			for _, v := range []struct{ name, member, val string }{
+				{"pcesvn-quoted", "pcesvn", fmt.Sprintf(`"%d"`, p.PceSvn+1)}, {"pcesvn-65536", "pcesvn", "65536"}, {"pcesvn-2^32", "pcesvn", "4294967296"}, {"pcesvn-65536-plus-low", "pcesvn", fmt.Sprint(65536 + int(p.PceSvn) - 1)},
+				{"pcesvn-fraction", "pcesvn", fmt.Sprintf("%d.5", p.PceSvn)}, {"pcesvn-negative", "pcesvn", "-1"}, {"pcesvn-true", "pcesvn", "true"},
+				{"svn-quoted", "svn", fmt.Sprintf(`"%d"`, int(p.Comp[0])+1)}, {"svn-256", "svn", "256"}, {"svn-256-plus-low", "svn", fmt.Sprint(256 + int(p.Comp[0]) - 1)}, {"svn-2^32", "svn", "4294967296"}, {"svn-negative", "svn", "-1"}, {"svn-null-then-level", "svn", "null"},
+			} {
+				w := w0.Clone()
+				first := match
+				first.Status = "UpToDate"
+				first.Pce = w0.P.PceSvn + 1 // (the thresholds written below replace this one or the first component's)
+				if v.member == "svn" {
+					first.Pce = w0.P.PceSvn
+					first.Sgx[0] = w0.P.Comp[0] + 1
+				}
+				w.Tcb.Levels = []world.Level{first, match}
+				js := w.Tcb.JSON()
+				key := fmt.Sprintf(`"%s":%d`, v.member, first.Pce)
+				if v.member == "svn" {
+					key = fmt.Sprintf(`"svn":%d`, first.Sgx[0])
+				}
+				i := strings.Index(js, key)
+				if i < 0 {
+					x.Broken("c04 threshold-spelling: member not found in the generated TCB Info")
+					break
+				}
+				js = js[:i] + fmt.Sprintf(`"%s":%s`, v.member, v.val) + js[i+len(key):]
+				w.TcbBody = world.SignedBody("tcbInfo", js, w.PKI.TcbSign.Key)
+				c := w.Case(world.LColl, "threshold-not-a-number-in-range", fmt.Sprintf("w%d/%s", wi, v.name))
+				c.Expect, c.ShadowSkip = "reject", true
+				if v.name == "svn-null-then-level" {
+					c.Expect = "" // (a null leaves the Go value at zero by the language's own rule; the reference decides)
+				}
+				check(x, n, c)
+				n++
+			}
+		}
+		x.Require("threshold-not-a-number-in-range", 0, n*3/4, n)
+	}
 	// ---- the levels that count are those of the document at hand: a TCB Info that must be refused (its matching level OutOfDate,
 	//      no matching level, the module's level Revoked) arrives after a response that carried ITS signature string next to the
 	//      acceptable document's member, and the acceptable one after the converse (see C03 same-signature-string-seen-before)
